@@ -272,6 +272,32 @@ func ruleC08Latch(r *Run) {
 		}
 	}
 	r.Check(rule, "commit sites", token.NoPos, n == 1, fmt.Sprintf("%d call sites of the underlying WriteHeader in the module (exactly one commit point expected)", n))
+	// a response starts "not written": wherever a new underlying writer is installed (other than a field-wise copy or
+	// clearing it), every path of that function also stores noWritten into length — otherwise the guard of the one
+	// commit point (length == noWritten) is false from the start and a status-only response is never committed
+	for _, f := range w.Funcs {
+		for i, st := range storesToField(f, m.writerF) {
+			if isNilConst(st.Val) || constructionCopy(st) {
+				continue
+			}
+			if _, isIface := st.Val.Type().Underlying().(*types.Interface); !isIface {
+				continue
+			}
+			okOpen, _ := allPathsHit(f, nil, func(x ssa.Instruction) bool {
+				s2, ok := x.(*ssa.Store)
+				if !ok {
+					return false
+				}
+				fa, isFA := s2.Addr.(*ssa.FieldAddr)
+				if !isFA || fieldVar(fa.X.Type(), fa.Field) != m.lengthF {
+					return false
+				}
+				cv, okc := constInt(s2.Val)
+				return okc && cv == m.noWritten
+			})
+			r.Check(rule, fmt.Sprintf("%s:new writer#%d starts unwritten", FuncName(f), i+1), w.InstrPos(st), okOpen, map[bool]string{true: "installing a new underlying writer goes together with length = noWritten on every path", false: "a new underlying writer is installed without marking the response as not written: the commit guard length == noWritten never holds, a response that only sets a status is never committed (the client sees 200)"}[okOpen])
+		}
+	}
 	// who-may-write length
 	for _, f := range w.Funcs {
 		for i, st := range storesToField(f, m.lengthF) {
@@ -541,6 +567,9 @@ func ruleC08Facade(r *Run) {
 				switch u := use.(type) {
 				case *ssa.Store:
 					if u.Addr == ref.(ssa.Value) && !isNilConst(u.Val) {
+						if al, isAl := unwrapAddr(u.Addr).Base.(*ssa.Alloc); isAl && rwValueTemp(w, al) {
+							continue // a wrapper value under construction that is then copied into Context.writer as a whole
+						}
 						ok, why = false, "underlying writer replaced outside the wrapper"
 					}
 				case *ssa.UnOp:
